@@ -18,6 +18,8 @@ pub struct MDef {
     pub file: String,
     pub line: usize,
     pub name: String,
+    /// the Python function name (differs from `name` for `@pytest.fixture(name=...)`)
+    pub func: String,
     pub scope: u8,
     pub autouse: bool,
     pub deps: Vec<String>,
@@ -81,6 +83,7 @@ impl<'a> Model<'a> {
                     file: f.rel.clone(),
                     line: *line,
                     name: name.clone(),
+                    func: fx.func.clone(),
                     scope: fx.scope,
                     autouse: fx.autouse,
                     deps: if fx.style == 2 { vec![] } else { fx.deps.clone() },
@@ -307,6 +310,11 @@ impl<'a> Model<'a> {
         if let Some(best) = self.defs_in(file, name).into_iter().max_by_key(|i| self.defs[*i].line) {
             if Some(best) != exclude {
                 return Expect { accept: [best].into_iter().collect(), via: Via::SameFile, none_ok: false };
+            }
+            // ... unless the earlier definition is a DIFFERENT function that merely carries the same fixture name
+            // (`@pytest.fixture(name="client") def client_override(client)` after `def client()`): that one is alive
+            if let Some(prev) = self.defs_in(file, name).into_iter().filter(|i| self.defs[*i].line < self.defs[best].line && self.defs[*i].func != self.defs[best].func).max_by_key(|i| self.defs[*i].line) {
+                return Expect { accept: [prev].into_iter().collect(), via: Via::SameFile, none_ok: false };
             }
         }
         // 1b. fixtures the using module imports itself (a test module doing `from .helpers import fix`)
